@@ -430,6 +430,26 @@ def gen_C05(rng, tier, want='C05'):
                 k = rng.choice([0, 0, 1, max(0, m - 1), m, m + 1, MAXU])
                 L.append('q 0 intersect %s %d' % (','.join('%d..%d' % r for r in rs) if rs else '-', k))
         cases.append(L)
+    # a long sequence over a DArray backing: layers of > 65536 bits with sparse and dense 1024-blocks of ones and of zeros
+    n = 140000 + rng.randrange(0, 500)
+    xs = [0] * n
+    for i in range(0, 1500): xs[i] = 1 + (i % 3)                    # a dense start
+    for i in range(0, 1200): xs[1500 + i * 100] = 3                 # ones 100 apart: 1024 of them span > 65536
+    for i in range(n - 2500, n): xs[i] = 2 + (i % 2)                # a dense end
+    L = ['case %s-big-wmd n=%d' % (want, n), 'new 0 wmd new %s' % lst(xs), 'q 0 len', 'q 0 alph_size']
+    pos = sorted(set([0, 1499, 1500, 1600, 121400, 121500, n - 2501, n - 2500, n - 1, n] + [rng.randrange(0, n + 1) for _ in range(12)]))
+    if want == 'C05':
+        for p_ in pos:
+            L.append('q 0 access %d' % p_)
+            for v in (0, 1, 2, 3): L.append('q 0 rank %d %d' % (p_, v))
+        for v, cnt_ in ((0, xs.count(0)), (1, xs.count(1)), (2, xs.count(2)), (3, xs.count(3))):
+            for k in sorted(set([0, 1, 499, 500, 1023, 1024, 1025, 1700, 2047, 2048, cnt_ - 1, cnt_] + [rng.randrange(0, cnt_ + 1) for _ in range(6)])): L.append('q 0 select %d %d' % (k, v))
+        L.append('q 0 rank_range 1400..%d 3' % (n - 100))
+    else:
+        for a, b in ((0, 2500), (1000, 3000), (1499, 1501), (120000, 122000), (n - 3000, n)):
+            for k in (0, 1, (b - a) // 2, b - a - 1, b - a): L.append('q 0 quantile %d..%d %d' % (a, b, k))
+        L.append('q 0 intersect 0..700,121000..121700 1'); L.append('q 0 intersect 1000..1700,1500..2400,%d..%d 2' % (n - 600, n))
+    cases.append(L)
     for b in ('wmr', 'wmd', 'wmb'):     # the empty sequence is rejected
         cases.append(['case %s-empty-%s' % (want, b), 'new 0 %s new -' % b, 'q 0 len', 'new 1 cv new 5', 'new 2 %s from_cv 1' % b, 'q 2 len'])
     return cases
